@@ -101,7 +101,7 @@ func extractTopLevelFields(blob []byte) ([]rawField, error) {
 	if err != nil {
 		return nil, wrapInvalid(err)
 	}
-	out := make([]rawField, 0, n)
+	out := make([]rawField, 0, capHint(n, r.Len()/2))
 	for i := 0; i < n; i++ {
 		code, err := dec.PeekCode()
 		if err != nil {
